@@ -87,6 +87,31 @@ def theorem_applicability(work, cases, shared=None, tag='mdlx'):
         out[cid] = flags
     return out
 
+CERT_HYPOTHESES = ['the file is the spec encoding of its parts (byte for byte)', 'header fields within the format', 'data-start word 16 bit', 'parameter block address 2..255',
+                   'gap of address-2 blocks', 'section = prologue + records + end marker + padding fills its blocks', 'block count and processor byte', 'prologue (1,80) or zeroed',
+                   'every record well formed (ids 1..127, capacity limits, exact offsets)', 'file below 2^31 bytes', 'header agrees with the parameters',
+                   'header frame count = frames in the file, within the loop bound', 'data present => float format', 'every frame of the announced shape']
+def layout_certificates(work, names, shared, tag='cert'):
+    """Evaluate coq/Proofs_LayoutCert.v (cert_ok_x, extracted through ExtractX.v) on files of the shared directory: does the layout
+    theorem C02_any_layout apply?  Returns {name: (ok, flags)}; flags = '' when the file could not be cut into parts."""
+    exe = build.build_modelx()
+    cases = [('k%d' % i, ['certx ' + n]) for i, n in enumerate(names)]
+    res, _, _ = harness.run_side(exe, cases, work, tag, shared, (), None, 16)
+    out = {}
+    for (cid, _), n in zip(cases, names):
+        ml, ms = res.get(cid, ([], 'missing'))
+        t = ml[0].split(' ') if ml and ml[0].startswith('C ') else ['C', '-', '-']
+        out[n] = (t[1] == '1', t[2] if len(t) > 2 and t[2] != '-' else '')
+    return out
+def failing_cert_hypotheses(certs):
+    out = {}
+    for n, (ok, bits) in certs.items():
+        if ok: continue
+        if not bits: out['not cut into parts (other termination, load refused)'] = out.get('not cut into parts (other termination, load refused)', 0) + 1
+        for k, b in enumerate(bits):
+            if b == '0': out[CERT_HYPOTHESES[k]] = out.get(CERT_HYPOTHESES[k], 0) + 1
+    return out
+
 LS_HYPOTHESES = ['header within the format', 'every group and parameter well formed (capacity limits)', 'at most one DATA_START', 'no repeated name, no untyped parameter',
                  'last group not a placeholder', 'parameter section below 256 blocks', 'section starts at byte 1 of its block', 'group ids 1..127 and records below 65536 bytes',
                  'header agrees with the parameters', 'header frame count = stored frames', 'frame count below the vector limit', 'declared data size within the loop bound of the model',
